@@ -19,7 +19,8 @@ CLAIM = dict(
          'computes error units against complex double-double references (backward error of solve in units of eps(|A||x|+|b|); determinant error in units of '
          'eps sqrt(n) prod_i max(|row_i|, max|a|)), TLC applies the a-priori GEPP guard. Singular systems: det must be 0 (exact types) / within the guard of 0 (floats); '
          'solve on a singular system is outside the property and accepted whatever it does. Off-band element access may panic or return 0. '
-         'Padding of arbitrary content is built through the public API (Banded::new + resize re-interpretation + in-band assignment) and verified through compact().',
+         'Padding of arbitrary content is built through the public API (Banded::new + resize re-interpretation + in-band assignment); if that does not reproduce the requested storage the plainly built matrix (uniform padding = fill value) is used instead. '
+         'A "built" event per case checks that new + in-band assignment put every entry into slot (i, m1+j-i); exact det/solve events carry the matrix the case prescribes as operand.',
     design='4 (C04)')
 
 NT = lambda e: True
